@@ -1462,7 +1462,7 @@ func (d *Data) storeAndUpdate(ctx *datastore.VersionedCtx, keyStr string, newDat
 		// cache updated field and field timestamps: the record being replaced is the one in memory
 		// (origData has already lost the fields this update nulls).
 		for field := range mdb.data[bodyid] {
-			mdb.fields[field]--
+			mdb.forgetField(field)
 		}
 		mdb.data[bodyid] = newData
 
@@ -1607,7 +1607,7 @@ func (d *Data) DeleteData(ctx storage.VersionedCtx, keyStr string) error {
 		_, found := mdb.data[bodyid]
 		if found {
 			for field := range mdb.data[bodyid] {
-				mdb.fields[field]--
+				mdb.forgetField(field)
 			}
 			delete(mdb.data, bodyid)
 			mdb.deleteBodyID(bodyid)
